@@ -114,6 +114,11 @@ func cmdCQueries(args []string) {
 		tree["form"] = "native"
 		root, _ := stackage.ConvertStack(BuildNode(tree))
 		copy2, _ := stackage.ConvertStack(BuildNode(tree))
+		// an equality closure (its verdict differs from the built-in one): every IsEqual query, from every goroutine, gets ITS answer
+		tree["eqpol"] = rng.Intn(3) == 0
+		if tree["eqpol"] == true {
+			root.SetEqualityPolicy(func(any, any) error { return errClosure })
+		}
 		if rng.Intn(2) == 0 {
 			root.SetReadOnly(true) // the documented lock-free read-only mode
 		}
